@@ -59,12 +59,15 @@ def run(chk):
         raw = np.array([r[0] for r in rows], dtype=np.float64) / RD
         i16 = np.array([r[1] for r in rows], dtype=np.int16)
         ref = np.array([r[2] for r in rows], dtype=np.float64) / RD
+        # the _L2com family gets a DIFFERENT reference (r100_L2com != r100_com, sigmav3d_L2com != sigmav3d_com)
+        ref2i = [REFS[(REFS.index(r[2]) + 1) % len(REFS)] for r in rows]
+        ref2 = np.array(ref2i, dtype=np.float64) / RD
         for col, kind in kinds.items():
             com = '_L2com' if col.endswith('_L2com') else ('_com' if col.endswith('_com') else '')
             stem = col[: len(col) - len(com)] if com else col
             if kind in ('Length', 'Velocity'):
                 if stem in ('r100', 'sigmav3d'):
-                    ov[col] = ref.astype(np.float32)
+                    ov[col] = (ref2 if com == '_L2com' else ref).astype(np.float32)
                 else:
                     shp = base[col].shape
                     ov[col] = (raw[:, None] * np.ones(shp[1:])[None] if len(shp) > 1 else raw).astype(np.float32)
@@ -110,13 +113,15 @@ def run(chk):
                 if kind == 'MidDisp':
                     mn = ov['sigmavMin_to_sigmav3d' + com + '_i16'].astype(np.int64)
                     mx = ov['sigmavMax_to_sigmav3d' + com + '_i16'].astype(np.int64)
-                    s = np.array([r[2] for r in rows], dtype=np.int64)
+                    s = np.array([(ref2i[j] if com == '_L2com' else rows[j][2]) for j in range(n)], dtype=np.int64)
                     want2 = np.array([float(Fraction(int(s[j]) ** 2 * (32000 ** 2 - int(mn[j]) ** 2 - int(mx[j]) ** 2) * v * v, (32000 * RD) ** 2)) for j in range(n)])
                     bad = ~np.isclose(got ** 2, want2, rtol=2e-5, atol=1e-12 * v * v)
                     ncmp += n
                 else:
                     want = np.empty(n)
                     for j, (r, i, rf) in enumerate(rows):
+                        if com == '_L2com':
+                            rf = ref2i[j]
                         ii = i
                         if kind == 'RatioVel':
                             st = col[: len(col) - len(com)].replace('Maj', 'Max')
